@@ -58,13 +58,13 @@ func (check) Cases(tier string) int {
 func (check) Exhaustive(string) bool { return false }
 
 func (check) Rule() string {
-	return "(1) exhaustively all reference graphs over 3 string settings with at most 2 references each (13^3 graphs); (2) random graphs over up to 8 settings (strings a..f, object o with members o.x, o.y) with references nested in defaults, alternatives, error operators and reference names, repeated uses, diamonds, self references, references from object members to ancestors and to the object itself, exact single references to the object; with 0 or 1 resolver. Every setting is read through String, Unpack (interface{} and string), Has, CountField, Child (object-valued), and the whole config through Unpack, FlattenedKeys and diff.CompareConfigs. A hook counts reference resolutions per read (budget 2*10^4, the read is aborted by the monitor beyond it); stack overflows kill the worker and are attributed to the journalled case. Outcomes are compared with the stack-based model evaluator by class: no re-entry -> exact value/failure; unabsorbed re-entry -> cyclic reference error; absorbed re-entry -> value only if no setting is evaluated twice. Non-trivial = the graph has at least one edge; distinct = distinct graph."
+	return "(1) exhaustively all reference graphs over 3 string settings with at most 2 references each (13^3 graphs); (2) random graphs over up to 8 settings (strings a..f, object o with members o.x, o.y) with references nested in defaults, alternatives, error operators and reference names, repeated uses, diamonds, self references, references from object members to ancestors and to the object itself, exact single references to the object; with 0 or 1 resolver. Every setting is read through String, Unpack (interface{} and string), Has, CountField, Child (object-valued), and the whole config through Unpack, FlattenedKeys and diff.CompareConfigs. A hook counts reference resolutions per read (budget 2*10^4, the read is aborted by the monitor beyond it); stack overflows kill the worker and are attributed to the journalled case. Outcomes are compared with the stack-based model evaluator by class: no re-entry -> exact value/failure; unabsorbed re-entry -> cyclic reference error; absorbed re-entry (by a default, an alternative or a resolver) -> the model's value. Non-trivial = the graph has at least one edge; distinct = distinct graph."
 }
 
 func (check) Assumptions() []string {
 	return []string{
 		"re-entry means: the referenced name is on the evaluation stack of the current read (reading setting a is not yet a reference to a)",
-		"not demanded: which member of a cycle is named; the value of reads where a cycle is absorbed and a setting is evaluated more than once; which keys FlattenedKeys lists for settings holding references (C15 excludes references) - for FlattenedKeys/CompareConfigs only termination and, for reference-free parts, nothing else",
+		"not demanded: which member of a cycle is named; which keys FlattenedKeys lists for settings holding references (C15 excludes references) - for FlattenedKeys/CompareConfigs only termination and, for reference-free parts, nothing else",
 		"step budget 2*10^4 resolutions per read for graphs of <= 8 settings with <= 3 references per string",
 	}
 }
@@ -232,8 +232,6 @@ func runWorld(res *harness.R, w *model.World, r *rand.Rand, verbose, sample bool
 			switch {
 			case tr.Budget:
 				class = "budget"
-			case tr.ReEntry && tr.Absorbed && tr.MultiEnter():
-				class = "C-absorbed-cycle-repeated-evaluation"
 			case tr.ReEntry && mres.Cyclic:
 				class = "B-unabsorbed-cycle"
 			case tr.ReEntry:
